@@ -18,7 +18,8 @@ RULE = ("All 400 (dimension 2..5, number 1..100) functions are constructed in bo
         "equals the repository test's constant, constructing the function again after other functions gives "
         "bit-identical tables, and an object built for another number, used inside every ball and switched with "
         "function.SetFunctionNumber(k) has the tables and the values (78 probe points over all balls) of a newly "
-        "built GKLS(n,k); (3) Hypothesis-generated points (quick 150, thorough 1500 per function): minimisers, "
+        "built GKLS(n,k); the prescribed values are also read through ONE coordinate container overwritten in place; half "
+        "of the functions are built after their hard-class namesake; (3) Hypothesis-generated points (quick 150, thorough 1500 per function): minimisers, "
         "points inside each ball (radius fraction weighted to 0 and 1), pairs straddling a ball boundary at relative "
         "distance 1e-7..1e-3, points outside every ball - checked against paraboloid / lower bound f_i / exact f_i / "
         "a derived slope bound. Non-trivial: a generated case that evaluates the cubic branch (strictly inside a "
